@@ -70,6 +70,7 @@ impl Shard {
 				let out = run_schedules(move || exec2(wl2.clone(), &base), sched, &scratch.join("sched"));
 				self.report.evaluations += out.executions;
 				self.report.sub_nontrivial += out.nontrivial;
+				self.report.excluded_known += EXCLUDED_KNOWN.swap(0, std::sync::atomic::Ordering::SeqCst);
 				case_nontrivial += out.nontrivial;
 				if let Some((sig, _, _)) = &out.failure {
 					if sig == "step-limit" {
